@@ -1,7 +1,7 @@
 //! C15 — with authorization on, a client reaches only keys its token grants.
 //!
 //! Part 1: containment of a requested pattern in a granted one (`auth::pattern_matches`),
-//!         exhaustive over all pattern pairs up to depth 4 over {a,b,?,#}: whatever the real server
+//!         exhaustive over all pattern pairs up to depth 4 over {a,ab,?,#} (one literal is a string prefix of the other): whatever the real server
 //!         returns for the request must be covered by the grant under the documented relation.
 //! Part 2: sessions on a server that requires authorization (real HS256 tokens): request sequences
 //!         mixing authorized and unauthorized requests; every key a served request returned,
@@ -38,8 +38,8 @@ pub const SIG_GRANT_INNER: &str = "grant_with_inner_multiwildcard_covers_subtree
 
 /// Part 1. Returns (pairs evaluated, pairs where containment was claimed).
 fn containment(rep: &mut Report, max_len: usize) -> (u64, u64, u64) {
-    let patterns = all_patterns(&["a", "b", "?", "#"], max_len);
-    let keys = all_patterns(&["a", "b"], max_len + 1);
+    let patterns = all_patterns(&["a", "ab", "?", "#"], max_len);
+    let keys = all_patterns(&["a", "ab"], max_len + 1);
     // what the real server returns for each request pattern, on a store holding every key
     let served: Vec<Option<BTreeSet<String>>> = par_map(&patterns, |_, p| {
         block_on(async {
@@ -186,7 +186,7 @@ impl Scenario for AuthScenario {
             let mut cfg = base_config();
             cfg.auth_token_key = Some(SECRET.to_owned());
             let mut wb = Worterbuch::with_config(cfg.clone());
-            for (k, v) in [("a", 1), ("a/b", 2), ("a/b/c", 3), ("b", 4), ("b/b", 5)] {
+            for (k, v) in [("a", 1), ("a/b", 2), ("a/b/c", 3), ("ab", 4), ("ab/b", 5)] {
                 wb.set(k.into(), json!(v), cid(INTERNAL), false).await.expect("set");
             }
             // unrestricted observer of everything that is published or changed
@@ -405,19 +405,19 @@ pub fn requests() -> Vec<CM> {
         t
     };
     let mut out = vec![];
-    for k in ["a", "a/b", "a/b/c", "b"] {
+    for k in ["a", "a/b", "a/b/c", "ab"] {
         out.push(CM::Get(Get { transaction_id: next(), key: s(k) }));
         out.push(CM::Set(Set { transaction_id: next(), key: s(k), value: json!(9) }));
         out.push(CM::Delete(Delete { transaction_id: next(), key: s(k) }));
     }
-    for k in ["a/b", "b"] {
+    for k in ["a/b", "ab"] {
         out.push(CM::CGet(Get { transaction_id: next(), key: s(k) }));
         out.push(CM::CSet(CSet { transaction_id: next(), key: s(k), value: json!(8), version: 0 }));
         out.push(CM::Publish(Publish { transaction_id: next(), key: s(k), value: json!(7) }));
         out.push(CM::Lock(Lock { transaction_id: next(), key: s(k) }));
         out.push(CM::Subscribe(Subscribe { transaction_id: next(), key: s(k), unique: false, live_only: None }));
     }
-    out.push(CM::SPubInit(SPubInit { transaction_id: 500, key: s("b") }));
+    out.push(CM::SPubInit(SPubInit { transaction_id: 500, key: s("ab") }));
     out.push(CM::SPubInit(SPubInit { transaction_id: 501, key: s("a/b") }));
     out.push(CM::SPub(SPub { transaction_id: 500, value: json!(6) }));
     out.push(CM::SPub(SPub { transaction_id: 501, value: json!(6) }));
@@ -426,7 +426,7 @@ pub fn requests() -> Vec<CM> {
         out.push(CM::PDelete(PDelete { transaction_id: next(), request_pattern: s(p), quiet: None }));
         out.push(CM::PSubscribe(PSubscribe { transaction_id: next(), request_pattern: s(p), unique: false, aggregate_events: None, live_only: None }));
     }
-    for p in [None, Some("a"), Some("a/b"), Some("b")] {
+    for p in [None, Some("a"), Some("a/b"), Some("ab")] {
         out.push(CM::Ls(Ls { transaction_id: next(), parent: p.map(s) }));
         out.push(CM::SubscribeLs(SubscribeLs { transaction_id: next(), parent: p.map(s) }));
     }
@@ -471,7 +471,7 @@ pub fn run(tier: &str, known: &mc::Known, lim: impl Fn(usize, usize, bool, u64) 
     ev.add("evaluations", pairs);
     ev.set("distinct_nontrivial", json!(classes.len()));
     ev.set("exhaustive", json!(true));
-    ev.set("rule", json!("part 1: every (grant, requested pattern) pair over {a,b,?,#} up to depth 4 (quick) / 5 (thorough); where pattern_matches claims containment, every key the real server returns for the request (measured on a store holding every key over {a,b} one level deeper) must be covered by the grant under the documented relation. part 2: for each of 10 tokens (no token, 5 grant sets, expired, forged, unsupported algorithm, garbage) every sequence of requests (all request kinds over keys/patterns a, a/b, a/b/c, b, a/?, a/#, ?/b, #, ?) up to the completed depth on a server that requires authorization; distinct_nontrivial counts distinct (token, request kind, served/refused/closed) classes"));
+    ev.set("rule", json!("part 1: every (grant, requested pattern) pair over {a,ab,?,#} up to depth 4 (quick) / 5 (thorough); where pattern_matches claims containment, every key the real server returns for the request (measured on a store holding every key over {a,ab} one level deeper) must be covered by the grant under the documented relation. part 2: for each of 10 tokens (no token, 5 grant sets, expired, forged, unsupported algorithm, garbage) every sequence of requests (all request kinds over keys/patterns a, a/b, a/b/c, ab, a/?, a/#, ?/b, #, ?) up to the completed depth on a server that requires authorization; distinct_nontrivial counts distinct (token, request kind, served/refused/closed) classes"));
     ev.assume("only soundness is asserted: served => every key returned, changed or removed (answer, store difference, unrestricted observer) is covered by a grant of the right privilege; not that every containable request is accepted");
     ev.assume("token expiry uses the wall clock: expiry times far in the past (2001) and far in the future (2100)");
     ev.assume("children returned by ls are counted as the keys parent/child");
